@@ -4,7 +4,7 @@ from smir.values import *   # noqa
 from checks.hubmodel import *     # noqa
 
 CRATES = ['basset_sei_hub']
-BOUNDS = {'quick': {'registry validators': '1..2', 'delegations': '1'}, 'thorough': {'registry validators': '1..3', 'delegations': '1..3'}}
+BOUNDS = {'quick': {'registry validators': '1..2', 'delegations': '1'}, 'thorough': {'registry validators': '1..3', 'delegations': '1..2'}}
 ASSUMPTIONS = ['E1, E3, E4 (DESIGN.md section 4)', 'delegated amount after the transaction = before + Delegate - Undelegate of the emitted messages (E4)']
 OUTSIDE = ['more validators / delegation entries than the bound', 'validators of a foreign denomination in the delegation list']
 
@@ -79,7 +79,7 @@ for _op in ['bond', 'bond_stsei', 'bond_rewards']:
     for _nv in (1, 2, 3):
         OBLIGATIONS.append(('%s_v%d' % (_op, _nv), mk(_op, _nv, 1)))
 for _op in ['unbond_bsei', 'unbond_stsei']:
-    for _nd in (1, 2, 3):
+    for _nd in (1, 2):        # 3 delegation entries exceed the executor's block budget (undelegation plan: 3 passes x 3 entries)
         OBLIGATIONS.append(('%s_d%d' % (_op, _nd), mk(_op, 1, _nd)))
 for _op in ['convert_bsei', 'convert_stsei', 'check_slashing']:
     OBLIGATIONS.append(('%s_d1' % _op, mk(_op, 1, 1)))
